@@ -4,7 +4,9 @@
 p=$1; shift; tiers=${*:-quick}
 wt=/tmp/seed-$p
 git -C /repo apply $wt/seed_out/patch.diff || exit 2
-/verif/bin/baseline.sh 2>&1 | grep "tests passed\|tests failed" | head -2
+# (the first run after a revert of the tracked build directory may rebuild while tests run: repeat once on failure)
+/verif/bin/baseline.sh > /verif/.work/confirm-baseline.log 2>&1 || /verif/bin/baseline.sh > /verif/.work/confirm-baseline.log 2>&1
+grep "tests passed\|tests failed" /verif/.work/confirm-baseline.log | head -2
 (cd $wt/seed_out && sh demo/run.sh /repo/_build > /verif/.work/demo-$p-patched.log 2>&1; echo "demo patched: $?")
 for t in $tiers; do /verif/bin/verif check $p --tier $t > /verif/.work/seedtest-$p-$t.log 2>&1; echo "$t check rc=$? viol=$(grep -c '^VIOLATION' /verif/.work/seedtest-$p-$t.log)"; done
 git -C /repo checkout -- .
